@@ -254,10 +254,12 @@ class MinerWatcher:
             # we didn't mine the block
             return
 
+        # add (and thereby fully validate) the block first, so that the state handed to the networking layer contains
+        # it: otherwise peers asking for the block are not served and the next candidate is built on the old head.
+        self.coinstate = self.coinstate.add_block(block, int(time()))
+
         self.network_thread.local_peer.chain_manager.set_coinstate(self.coinstate)
         self.network_thread.local_peer.network_manager.broadcast_block(block)
-
-        self.coinstate = self.coinstate.add_block(block, int(time()))
 
         self.network_thread.local_peer.disk_interface.save_block(block)
         self.network_thread.local_peer.disk_interface.flush_blocks()
